@@ -109,7 +109,12 @@ def check(ctx):
     ok = bool(st)
     why = "every record receives every column, None included"
     for s_ in st:
-        facts = [(k, t) for k, t in facts_at(tl, s_) if not t.startswith("iter:")]
+        # conditions on the CELL (its value, its record): a test of the frame as a whole (a separate path for one-row frames)
+        # selects the algorithm, it does not drop cells
+        cell_names = {n.id for n in ast.walk(s_.value) if isinstance(n, ast.Name)} | \
+                     {n.id for n in ast.walk(s_.targets[0]) if isinstance(n, ast.Name)}
+        facts = [(k, t) for k, t in facts_at(tl, s_) if not t.startswith("iter:")
+                 and ({n.id for n in ast.walk(ast.parse(t, mode="eval")) if isinstance(n, ast.Name)} & cell_names)]
         if facts:
             ok = False
             why = (f"the cell is stored only under {facts}: records lose the field when the value is missing, so the intermediate "
